@@ -38,6 +38,20 @@ Theorem C09_kept_subcluster : forall g l m nl rel m' s w, reload_gslb g l m = So
 Proof. exact gslb_keeps. Qed.
 Print Assumptions C09_kept_subcluster.
 
+(* The whole BalTableReload keeps the very object of every backend whose cluster, sub-cluster and address persist:
+   kept_image = the same record (availability, counters, name, release count) with the configured weight, or untouched
+   when the backend conf does not mention its cluster / sub-cluster; the sub-cluster gets its configured weight. *)
+Theorem C09_kept_state_table : forall gs bc t t' err c g s w b b',
+  table_reload gs bc t = Some (t', false, err) ->
+  cfind (cname c) (clus t) = Some c -> In (cname c, g) gs ->
+  In s (csubs c) -> gfind (sname s) g = Some w ->
+  In b (sbks s) -> NoDup (map kaddr (sbks s)) ->
+  kept_image bc (cname c) (sname s) b = Some b' ->
+  exists c' s', In c' (clus t') /\ cname c' = cname c /\ In s' (csubs c') /\ sname s' = sname s /\
+                sweight s' = w /\ In b' (sbks s').
+Proof. exact table_keeps. Qed.
+Print Assumptions C09_kept_state_table.
+
 (* A newly configured address gets a fresh backend that is available, never released, with the configured weight
    (the last entry of a duplicated address wins). *)
 Theorem C09_added_selectable : forall c l k rel a n w, update_rr c l = Some (k, rel) ->
@@ -45,6 +59,22 @@ Theorem C09_added_selectable : forall c l k rel a n w, update_rr c l = Some (k, 
   In (mkBk a n (w * 100) true 0 0 0) k.
 Proof. exact update_adds. Qed.
 Print Assumptions C09_added_selectable.
+
+(* What BalanceGslb.Balance can return after a reload (model of subClusterBalance over every hash residue + the
+   eligible backends of the chosen sub-cluster; `meta_fresh` = totalWeight / single / avail are the values Reload
+   computes from the sorted list, which C09_reload_fresh_shortcuts shows for every successful Reload): EXACTLY the
+   available positive-weight backends of the positive-weight sub-clusters.  So an added sub-cluster / backend becomes
+   selectable and a drained (weight 0), removed or unavailable one is never selected - in particular through the
+   `single` short-cut, whose index must refer to the sorted list. *)
+Theorem C09_selected_exact : forall c x, meta_fresh c -> 0 < pos_total (csubs c) ->
+  (In x (fst (selected c)) <->
+   exists s b, In s (csubs c) /\ sweight s > 0 /\ In b (sbks s) /\ bk_eligible b = true /\ x = sel_code s b).
+Proof. exact selected_exact. Qed.
+Print Assumptions C09_selected_exact.
+Theorem C09_reload_fresh_shortcuts : forall g l m nl rel m', reload_gslb g l m = Some (nl, rel, false, m') ->
+  meta_fresh (mkClu 0 nl m').
+Proof. exact reload_gslb_fresh. Qed.
+Print Assumptions C09_reload_fresh_shortcuts.
 
 (* Wire level, release clauses of prop_C09 (obs_core: no panic observation, no closed backend in the dump, orphans =
    closed orphans): hold of the model run for every well-formed input.
